@@ -1,9 +1,9 @@
 (** FullRound: C07 for EVERY graph of the domain, ring edges included (unbounded).
     [C07_roundtrip]: for every plain, well-formed, connected graph g and every ring transcript tr honouring the
-    contract (tr = the non-tree edges of g, each once -- stated on has_edge), outside the `%nn`-then-digit
-    pattern, read_cgsmiles (reader model) of write_cgsmiles_graph g tr (writer model) is a graph ISOMORPHIC to g:
+    contract (tr = the non-tree edges of g, each once -- stated on has_edge), read_cgsmiles (reader model) of
+    write_cgsmiles_graph g tr (writer model) is a graph ISOMORPHIC to g (no pattern excluded since fix b681517):
     a bijection on the nodes that carries every node's parsed name attributes and the order of every pair of
-    nodes.  Composition of: write_graph_is_print / graph_text_is_read_partial (writer text = reader items),
+    nodes.  Composition of: write_graph_is_print / graph_text_is_read (writer text = reader items),
     reader_sim_lin (component Reader), machine_flat, run_inv, machine_full, iso_orders. *)
 From Coq Require Import String.
 From Coq Require Import List Ascii ZArith Bool Lia.
@@ -113,25 +113,20 @@ Theorem C07_roundtrip : forall fo A g tr start,
   (* names the reader's grammar accepts; [A k] = what the node parser returns for the name of k *)
   (forall k, In k (node_keys g) -> name_ok fo (name_of g k) = true) ->
   (forall k, parse_graph_base_node fo (name_of g k) = Ok (A k)) ->
-  exists T, rkey T = start /\ dfs_edges g start = Ok (redges T) /\ NoDup (rkeys T)
-    /\ (forall x, In x (rkeys T) <-> In x (node_keys g))
-    /\ ((* outside the `%nn`-then-digit pattern *)
-        rings_plain (the_items (name_of g) (esym_of g) (rsym_of g tr) T tr) = true ->
-        exists s h, write_cgsmiles_graph g tr = Ok s /\ read_cgsmiles fo s = Ok h /\ graph_iso A g h).
+  exists s h, write_cgsmiles_graph g tr = Ok s /\ read_cgsmiles fo s = Ok h /\ graph_iso A g h.
 Proof.
   intros fo A g tr start Hp Hcon Hmin R1 R2 R3 R4 Hok Hparse.
   assert (Hwf : graph_wf g = true) by (unfold plain_graph in Hp; now apply andb_prop in Hp as [H _]).
   destruct (graph_wf_facts g Hwf) as [Hc Hnd].
   destruct (dfs_spanning_wf g start Hwf Hcon Hmin) as [T0 (A1 & A2 & _ & _ & A5 & _ & _ & _ & _)].
   (* the reader model returns the machine's denotation of the writer's items *)
-  destruct (graph_text_is_read_partial fo g tr start Hp Hmin (fun b Hb => proj2 (R1 b Hb)) Hok) as [T (B1 & B2 & B3 & B4)].
+  destruct (graph_text_is_read fo g tr start Hp Hmin (fun b Hb => proj2 (R1 b Hb)) Hok) as [T (B1 & B2 & B3 & B4)].
   assert (Ekeys : rkeys T = rkeys T0).
   { assert (Hk : forall t, rkeys t = rkey t :: map snd (redges t)) by (intros [k cs]; rewrite redges_snd; reflexivity).
     rewrite (Hk T), (Hk T0), B1, A1. f_equal. f_equal. rewrite A2 in B2. now inversion B2. }
   assert (A5' : forall x, In x (rkeys T) <-> In x (node_keys g)) by (intros x; rewrite Ekeys; apply A5).
-  exists T. split; [exact B1|]. split; [exact B2|]. split; [exact B3|]. split; [exact A5'|]. intros Hpl.
   assert (Etree : dfs_tree g = redges T) by (unfold dfs_tree; now rewrite Hmin, B2).
-  cbv zeta in B4. destruct (B4 Hpl) as [s [W R]].
+  cbv zeta in B4. destruct B4 as [s [W R]].
   assert (Hadj : forall e, In e (redges T) -> In (snd e) (neighbors g (fst e))).
   { intros e He. destruct (dfs_shape g start _ B2) as [T' (D1 & D2 & _ & _ & D5 & _)]. rewrite D2 in He. now apply D5. }
   (* the contract, on T *)
